@@ -238,7 +238,7 @@ def gen_cases(rng, tier):
         ntx = rng.randint(2, 4)
         shape = ",".join(str(rng.choice([1, 2, 3])) for _ in range(ntx))
         cases.append(f"mode=rewrite seed={rng.getrandbits(32)} shape={shape} pay={rng.choice([2, 9, 60])} cut={rng.choice([1, 20, 60, 300])}")
-    stride = 97 if tier == "quick" else 1
+    stride = 197 if tier == "quick" else 1
     cont = "bound" if tier == "quick" else "bound"
     fixed = ["s0,g0,t", "s0,s1,g0,g1,t", "s0,g0,t,R,s1,g1,t", "s0,Fa,s1,s2,Ff,g0,t,g0,t,Fc,s3",
              "s0,g0,t,K30,s1,g1,t,K1,s2", "s0,s1,R,g0,t,Fc,g1,t"]
